@@ -860,9 +860,7 @@ theorem decodeStep_shrinks (d : Nat) (s : DState) (b : UInt8) (bs : Bytes) (idx 
   · split
     · have hk := decodeKey_shrinks s (b :: bs) idx
       have hs := decodeString_shrinks d s (b :: bs) idx
-      cases s.current with
-      | none => simp only []; split <;> assumption
-      | some c => simp only []; split <;> assumption
+      split <;> assumption
     · split
       · exact decodeNumber_shrinks _ _ _ _ _
       · split
